@@ -2,6 +2,7 @@
    proofs in Acc/ProofsDfs.v, Acc/ProofsSpec.v, Acc/ProofsLoop.v; example in Acc/Examples.v. *)
 From Salsa Require Import Base.
 From Salsa.Acc Require Import Model Spec ProofsDfs ProofsSpec ProofsLoop Statement Examples.
+From Salsa.Acc Require Import AInv AInvTop AInvFull AInvExamples.
 
 (* The stack loop of accumulated_by (pop; skip if visited; collect; push the inputs in
    reverse) computes the recursive pre-order depth-first traversal: for every graph. *)
@@ -167,3 +168,135 @@ Print Assumptions C11_example_view.
 (* the full statement, kept visible (NOT proved): *)
 Check C11_accumulated_full_statement : Prop.
 Print C11_accumulated_full_statement.
+
+(* ------------------------------------------------------------------------------------
+   THE FULL THEOREM.  The named gap is closed: the reachable states of the Acc model provide the
+   view the loop needs.  Acc/AInv*.v port the durability invariant of the Core model
+   (Core/DInv*.v) to Acc/Model.v and add the accumulator clauses -- a memo's accumulated values
+   are the from-scratch pushes of its query at verified_at; an Empty accumulated_inputs flag
+   means nothing is pushed below any function it calls (recomputed by deep_verify_edges, kept by
+   the durability short-cut, or-ed in add_read); the recorded edges are the first occurrences of
+   the from-scratch reads minus never-changing entries below which nothing is pushed (the
+   record_input and discard_edges_if_never_change exceptions).  Acc/AInvLoop.v runs the
+   accumulated_by loop over such states: it terminates within a bound computed from the
+   from-scratch call tree and returns spec_acc.
+   For every acyclic program, BOTH builds (persist or not), every no_eq / LRU configuration,
+   initial durabilities and write durabilities among the four levels, and every history of
+   writes, synthetic writes, cell changes followed by a new revision, Gets, `accumulated` calls,
+   LRU capacity changes and evictions: every `accumulated` call returns spec_acc of the current
+   snapshot (or unwinds; never out of fuel for a large enough loop bound). *)
+Theorem C11_accumulated :
+  forall (persist : bool) (prog : qkey -> body) (noeq : qkey -> bool) (fams : list N)
+         (rank : qkey -> nat) (NF : nat),
+  calls_below prog rank -> (forall q, (rank q < NF)%nat) ->
+  forall fuel, (forall p, (rank p < fuel)%nat) ->
+  forall iv idur lru0 ops,
+    (forall i, idur i <= 3) -> Forall dur_op ops -> wf_ops false ops ->
+    exists afuel0, forall afuel, (afuel0 <= afuel)%nat ->
+      acc_outs_ok persist prog noeq fams NF fuel afuel (init iv idur lru0) ops.
+Proof.
+  intros persist prog noeq fams rank NF Hrank Hbound.
+  exact (accumulated_full persist prog noeq fams rank Hrank NF Hbound).
+Qed.
+Check C11_accumulated :
+  forall (persist : bool) (prog : qkey -> body) (noeq : qkey -> bool) (fams : list N)
+         (rank : qkey -> nat) (NF : nat),
+  calls_below prog rank -> (forall q, (rank q < NF)%nat) ->
+  forall fuel, (forall p, (rank p < fuel)%nat) ->
+  forall iv idur lru0 ops,
+    (forall i, idur i <= 3) -> Forall dur_op ops -> wf_ops false ops ->
+    exists afuel0, forall afuel, (afuel0 <= afuel)%nat ->
+      acc_outs_ok persist prog noeq fams NF fuel afuel (init iv idur lru0) ops.
+Print Assumptions C11_accumulated.
+
+(* the same with the Gets of the history (each returns eval of the current snapshot) and with the
+   sharp set of panics: only injected ones, and only while a fault switch is on *)
+Theorem C11_read_ok_spec : forall prog NF s o r,
+  read_ok prog NF s o r <->
+  match o with
+  | OGet q => r = Ok (OV (eval prog NF (snap_of s) q)) \/
+              exists p, r = Panic p /\ p = PInjected /\ exists c, d_pcell s c <> 0
+  | OAccumulated q => r = Ok (OL (spec_acc prog NF (snap_of s) q)) \/
+              exists p, r = Panic p /\ p = PInjected /\ exists c, d_pcell s c <> 0
+  | _ => True
+  end.
+Proof. intros prog NF s o r. destruct o; reflexivity. Qed.
+Check C11_read_ok_spec : forall prog NF s o r,
+  read_ok prog NF s o r <->
+  match o with
+  | OGet q => r = Ok (OV (eval prog NF (snap_of s) q)) \/
+              exists p, r = Panic p /\ p = PInjected /\ exists c, d_pcell s c <> 0
+  | OAccumulated q => r = Ok (OL (spec_acc prog NF (snap_of s) q)) \/
+              exists p, r = Panic p /\ p = PInjected /\ exists c, d_pcell s c <> 0
+  | _ => True
+  end.
+Print Assumptions C11_read_ok_spec.
+
+Theorem C11_accumulated_and_gets :
+  forall (persist : bool) (prog : qkey -> body) (noeq : qkey -> bool) (fams : list N)
+         (rank : qkey -> nat) (NF : nat),
+  calls_below prog rank -> (forall q, (rank q < NF)%nat) ->
+  forall fuel, (forall p, (rank p < fuel)%nat) ->
+  forall iv idur lru0 ops,
+    (forall i, idur i <= 3) -> Forall dur_op ops -> wf_ops false ops ->
+    exists afuel0, forall afuel, (afuel0 <= afuel)%nat ->
+      all_ok persist prog noeq fams NF fuel afuel (init iv idur lru0) ops.
+Proof.
+  intros persist prog noeq fams rank NF Hrank Hbound.
+  exact (all_ok_init persist prog noeq fams rank Hrank NF Hbound).
+Qed.
+Check C11_accumulated_and_gets :
+  forall (persist : bool) (prog : qkey -> body) (noeq : qkey -> bool) (fams : list N)
+         (rank : qkey -> nat) (NF : nat),
+  calls_below prog rank -> (forall q, (rank q < NF)%nat) ->
+  forall fuel, (forall p, (rank p < fuel)%nat) ->
+  forall iv idur lru0 ops,
+    (forall i, idur i <= 3) -> Forall dur_op ops -> wf_ops false ops ->
+    exists afuel0, forall afuel, (afuel0 <= afuel)%nat ->
+      all_ok persist prog noeq fams NF fuel afuel (init iv idur lru0) ops.
+Print Assumptions C11_accumulated_and_gets.
+
+(* [C11_accumulated_full_statement] (above, kept visible) is this statement WITHOUT the two
+   hypotheses that bound the durability numbers to the four levels of the API
+   ([forall i, idur i <= 3] and [Forall dur_op ops]).  The model's [dur] is a number; with an
+   out-of-range level a field is treated as never-changing by memos but still accepts writes
+   (Props/C02.v, C02_durability_needs_levels, shows the stale result on the Core model), so the
+   bounds are necessary; C11_accumulated is the full statement with them. *)
+Theorem C11_dur_op_spec : forall o,
+  dur_op o <-> (forall i v d, o = OSet i v (Some d) -> d <= 3).
+Proof.
+  intros o. split.
+  - intros Hd i v d ->. exact Hd.
+  - intros Hx. destruct o as [i v [d|] | d | c v | c v | q | q | fam n |]; cbn; try exact I.
+    apply (Hx i v d eq_refl).
+Qed.
+Check C11_dur_op_spec : forall o,
+  dur_op o <-> (forall i v d, o = OSet i v (Some d) -> d <= 3).
+Print Assumptions C11_dur_op_spec.
+
+(* non-vacuity (Acc/AInvExamples.v): d = 1 pushes 7 once the input a is >= 5; f = d + 1 pushes 3.
+   After a: 4 -> 9 the second `accumulated` executes d again (equal value, backdated) and only
+   VALIDATES f, whose accumulated_inputs flag is recomputed (Empty -> Any); the result is the
+   from-scratch list [3; 7].  The history satisfies the hypotheses of the theorem (both builds). *)
+Theorem C11_example_full :
+  (forall persist, exists afuel0, forall afuel, (afuel0 <= afuel)%nat ->
+     all_ok persist ax_prog ax_noeq [] 2 2 afuel ax_init ax_ops) /\
+  snd (ax_run 6) = [Ok (OL [3]); Ok (OV 0); Ok (OL [3; 7]); Ok (OV 2); Ok (OV 0); Ok (OL [3])] /\
+  spec_acc ax_prog 2 (snap_of (fst (ax_run 2))) (0, 0) = [3; 7] /\
+  d_log (fst (ax_run 3)) = [EvValidate (0, 0); EvExec (1, 0); EvExec (1, 0); EvExec (0, 0)] /\
+  option_map (fun m => (m_verified m, m_acc m, m_accin m)) (d_memo (fst (ax_run 1)) (0, 0)) = Some (1, [3], false) /\
+  option_map (fun m => (m_verified m, m_acc m, m_accin m)) (d_memo (fst (ax_run 3)) (0, 0)) = Some (2, [3], true).
+Proof.
+  split; [exact ax_accumulated|].
+  destruct ax_values as (A & _ & B & _). split; [exact A|]. split; [exact B|].
+  destruct ax_deep_verified as (_ & C & D0 & E0 & _). split; [exact C|]. split; assumption.
+Qed.
+Check C11_example_full :
+  (forall persist, exists afuel0, forall afuel, (afuel0 <= afuel)%nat ->
+     all_ok persist ax_prog ax_noeq [] 2 2 afuel ax_init ax_ops) /\
+  snd (ax_run 6) = [Ok (OL [3]); Ok (OV 0); Ok (OL [3; 7]); Ok (OV 2); Ok (OV 0); Ok (OL [3])] /\
+  spec_acc ax_prog 2 (snap_of (fst (ax_run 2))) (0, 0) = [3; 7] /\
+  d_log (fst (ax_run 3)) = [EvValidate (0, 0); EvExec (1, 0); EvExec (1, 0); EvExec (0, 0)] /\
+  option_map (fun m => (m_verified m, m_acc m, m_accin m)) (d_memo (fst (ax_run 1)) (0, 0)) = Some (1, [3], false) /\
+  option_map (fun m => (m_verified m, m_acc m, m_accin m)) (d_memo (fst (ax_run 3)) (0, 0)) = Some (2, [3], true).
+Print Assumptions C11_example_full.
